@@ -167,7 +167,7 @@ class Shell:
         e = dict(os.environ)
         e["SOFTHSM2_CONF"] = "softhsm2.conf"
         e["ASAN_OPTIONS"] = "halt_on_error=0:detect_leaks=0:abort_on_error=0:allocator_may_return_null=1:log_path=%s" % os.path.join(statedir, "..", "asan.log")
-        e["TSAN_OPTIONS"] = "halt_on_error=0:report_signal_unsafe=0"
+        e["TSAN_OPTIONS"] = "halt_on_error=0:report_signal_unsafe=0:exitcode=0:log_path=%s" % os.path.join(statedir, "..", "tsan.log")
         if env:
             e.update(env)
         self.p = subprocess.Popen([os.path.join(os.environ.get("VERIF_BUILD", os.path.join(VERIF, "build")), variant, prog)], cwd=statedir, env=e,
